@@ -336,6 +336,7 @@ func init() {
 		ID: "C04", Title: "Index queries are complete: every overlapping record lies in a returned chunk", Level: "other",
 		Rules: []RuleDef{binBAI, binCSI, binUnplaced, binOneWalk,
 			{Name: "STATS-ADD", What: "tabix: a name is registered only when the underlying index created its reference (shared with C15; under C04 since a fifth-round seed: an unplaced record with a new name made the written index unreadable)", Floor: 4, Run: ruleStatsAdd},
+			{Name: "CHUNKS-FRESH", What: "the list a Chunks method sorts and merges in place is built in that call, never an alias of the index's storage (shared with C17)", Floor: 2, Run: ruleChunksFresh},
 			{Name: "ARG-AGREE", What: "Add and Chunks hand the same geometry to the bin function / bin enumeration; BAI and tabix file under BinFor of the record's own interval", Floor: 3, Run: ruleArgAgree},
 			{Name: "COUPLED-TABIX", What: "tabix: refNames append ⇔ nameMap insert", Floor: 1, Run: ruleCoupledTabix},
 			{Name: "SORTED-PRE", What: "every application of a merge strategy is to a chunk list sorted by begin offset", Floor: 5, Run: ruleSortedPre},
